@@ -17,7 +17,7 @@ pub struct DiffMode {
 }
 
 pub fn mode_strategy() -> BoxedStrategy<DiffMode> {
-    (prop_oneof![3 => Just(3u8), 2 => Just(0u8), 3 => 0u8..11], 0u8..4, 0u8..5, any::<bool>())
+    (prop_oneof![3 => Just(3u8), 2 => Just(0u8), 3 => 0u8..11], 0u8..5, 0u8..5, any::<bool>())
         .prop_map(|(unified, kind, algo, renames)| DiffMode { unified, kind, algo, renames })
         .boxed()
 }
@@ -147,7 +147,7 @@ pub fn make_diff(sb: &Sandbox, pair: &StatePair, mode: &DiffMode) -> String {
         args.push(algo);
     }
     args.push(if mode.renames { "-M" } else { "--no-renames" });
-    match mode.kind % 4 {
+    match mode.kind % 5 {
         0 => {
             // unstaged: new files must be known to git to show up (intent-to-add)
             sb.git_ok(&["add", "-A", "-N"]);
@@ -163,11 +163,22 @@ pub fn make_diff(sb: &Sandbox, pair: &StatePair, mode: &DiffMode) -> String {
             args.push("HEAD");
             sb.git_diff(&args)
         }
-        _ => {
+        3 => {
             sb.commit_all("new");
             args.push("HEAD~1");
             args.push("HEAD");
             sb.git_diff(&args)
+        }
+        _ => {
+            // `git show`: the same commit-to-commit diff behind the commit's header and message
+            sb.commit_all("new state\n\nSecond paragraph of the message.");
+            let mut a = vec!["show", "--no-color", "--no-ext-diff"];
+            a.extend_from_slice(&args);
+            let o = sb.git(&a);
+            if o.code != Some(0) {
+                panic!("git show {:?} failed: {}", args, o.brief());
+            }
+            o.stdout
         }
     }
 }
